@@ -3,6 +3,7 @@ CONSTANTS
   K = 2
   Kinds = {"commit"}
   Emit = FALSE
+  RepLevel = 2
   Bug = "git_author_not_normalised"
 INVARIANTS InvCommit
 CHECK_DEADLOCK FALSE
